@@ -575,11 +575,14 @@ def decorator_lift_transform_cached(transform, class_fn, **trafo_kwargs):
     class_fns = (class_fn,)
   prewrapped_fns = [wrap_method_once(class_fn) for class_fn in class_fns]
   trafo_fn = None
+  # module state (e.g. the autoname cursor) left behind by the method, per
+  # module fingerprint: on a jit cache hit the method body is not executed
+  # again, so its effect on the module state is replayed from here.
+  state_after: dict[_HashableProxy, Any] = {}
 
   @functools.wraps(prewrapped_fns[0])
   def wrapped_fn(self: Module, *args, **kwargs):
     nonlocal trafo_fn
-    state = self._state.export()
 
     # increment rng counters for all rngs in scope
     with fork_rngs(self):
@@ -597,9 +600,13 @@ def decorator_lift_transform_cached(transform, class_fn, **trafo_kwargs):
         if not multi_scope:
           scopes = [scopes]
         cloned, args, kwargs = set_module_scopes(self, args, kwargs, scopes)
-        object.__setattr__(cloned, '_state', state.export())
+        # `trafo_fn` is created once and keeps the `core_fn` of the first
+        # call: take the state of the module of the current call, not the
+        # one exported when the first call was made.
+        object.__setattr__(cloned, '_state', self._state.export())
         res = prewrapped_fn(cloned, *args, **kwargs)
         self._state.reimport(cloned._state)
+        state_after[module_hash] = cloned._state.export()
         _test_transformed_return_values(
             res, getattr(class_fn, '__name__', None)
         )
@@ -634,7 +641,10 @@ def decorator_lift_transform_cached(transform, class_fn, **trafo_kwargs):
       # get a hashable proxy object for the Module
       hash_key = _HashableProxy.from_module(self)
 
-      return trafo_fn(module_scopes, hash_key, *args, **kwargs)
+      res = trafo_fn(module_scopes, hash_key, *args, **kwargs)
+      if hash_key in state_after:
+        self._state.reimport(state_after[hash_key])
+      return res
 
   return wrapped_fn
 
@@ -694,13 +704,14 @@ def module_class_lift_transform_cached(
     fn = getattr(module_class, fn_name)
     trafo_args, trafo_kwargs = fn_trafo_args
     trafo_fn = None
+    # see decorator_lift_transform_cached
+    state_after: dict[_HashableProxy, Any] = {}
 
     # we need to create a scope-function from our class for the given method
     @functools.wraps(fn)
     def wrapped_fn(self: Module, *args, **kwargs):
       assert self.scope is not None
       nonlocal trafo_fn
-      state = self._state.export()
 
       # increment rng counters for all rngs in scope
       with fork_rngs(self):
@@ -716,9 +727,12 @@ def module_class_lift_transform_cached(
           # we reference module_class, not self.__class__ to avoid infinite loop
           cloned = module_class(parent=None, **attrs)
           cloned, args, kwargs = set_module_scopes(cloned, args, kwargs, scopes)
-          object.__setattr__(cloned, '_state', state.export())
+          # the state of the module of the current call (`trafo_fn` keeps the
+          # `core_fn` created by the first call)
+          object.__setattr__(cloned, '_state', self._state.export())
           res = fn(cloned, *args, **kwargs)
           self._state.reimport(cloned._state)
+          state_after[module_hash] = cloned._state.export()
           _test_transformed_return_values(res, fn_name)
           return res
 
@@ -730,6 +744,8 @@ def module_class_lift_transform_cached(
         hash_key = _HashableProxy.from_module(self)
 
         ret = trafo_fn(module_scopes, hash_key, *args, **kwargs)
+        if hash_key in state_after:
+          self._state.reimport(state_after[hash_key])
         return ret
 
     return wrapped_fn
